@@ -4,7 +4,7 @@ case-insensitive compare on ASCII separators are exact on bytes because bytes >=
 occur inside multi-byte UTF-8 sequences and never equal an ASCII character."""
 import z3
 
-from mirsym.core import Adt, Cell, Opaque, PVec, Ref, SB, Tup, Unsupported, dv, zand, zor, znot, zbool
+from mirsym.core import Adt, Cell, Opaque, PVec, Ref, SB, SymStr, Tup, Unsupported, dv, zand, zor, znot, zbool
 from mirsym.models import It, sb_bytes
 
 
@@ -184,6 +184,9 @@ def m_split_once(ex, args, callee):
 
 def m_str_index(ex, args, callee):
     s, r = dv(args[0]), args[1]
+    if isinstance(s, SymStr):
+        from mirsym import models as _M
+        return _M.m_str_index(ex, args, callee)
     f = [c.v for c in r.fields[None]]
     if isinstance(s, str):
         b = s.encode()
